@@ -1,5 +1,1107 @@
-//! State-machine generators (virtual sign BFS, controller reply-script DFS).
+//! State-machine generators: virtual sign BFS / walks (C12, C13), shared bus (C14),
+//! controller reply-script DFS (C10, C11), transfer traces (C09), closed loop (C08).
+use std::cell::RefCell;
+use std::collections::{HashMap, VecDeque};
+use std::rc::Rc;
+
+use flipdot_core::{Address, Message, Operation, PageFlipStyle, SignBus, State};
+use flipdot_testing::{VirtualSign, VirtualSignBus};
+
+use crate::eval::{guarded, reply_of_str, run_cop, str_outcome, Reply, ScriptBus};
+use crate::proto::*;
+use crate::rng::Rng;
+use crate::gen::SIGN_SIZES;
 use crate::Ctx;
-pub fn generate_sm(prop: &str, _ctx: &mut Ctx) {
-    panic!("no generator for {}", prop);
+
+pub fn generate_sm(prop: &str, ctx: &mut Ctx) {
+    match prop {
+        "C08" => gen_c08(ctx),
+        "C09" => gen_c09(ctx),
+        "C10" | "C11" => gen_c10(ctx),
+        "C12" | "C13" => gen_vsign(ctx),
+        "C14" => gen_c14(ctx),
+        _ => crate::gen_io::generate_io(prop, ctx),
+    }
+}
+
+// ---------------------------------------------------------------------------------------------
+// alphabet
+
+fn hex16(b: [u8; 16]) -> String {
+    hex_of_bytes(&b)
+}
+
+pub fn config_blocks() -> Vec<(String, &'static str)> {
+    vec![
+        (hex_of_bytes(SIGN_TYPES[2].to_bytes()), "real-90x7"),
+        (hex_of_bytes(SIGN_TYPES[8].to_bytes()), "real-96x8"),
+        (hex16([8, 0, 0, 0, 0, 8, 0, 8, 0, 0, 0, 0, 0, 0, 0, 0]), "tiny-horizon-8x8"),
+        (hex16([4, 0, 0, 0, 8, 16, 0, 0, 0, 8, 0, 0, 0, 0, 0, 0]), "tiny-max3000-16x8"),
+        (hex16([4, 0x20, 0, 6, 7, 0x1E, 0, 0, 0, 8, 0, 0, 0, 0, 0, 0]), "known-key-other-size"),
+        (hex16([1, 2, 3, 4, 5, 6, 7, 8, 9, 10, 11, 12, 13, 14, 15, 16]), "unknown-family"),
+        (hex16([4, 0x20, 0, 0, 7, 0x80, 0x80, 0x80, 0x80, 8, 0, 0, 0, 0, 0, 0]), "widths-over-255"),
+        (hex16([4, 0x20, 0, 0, 0, 0, 0, 0, 0, 0, 0, 0, 0, 0, 0, 0]), "zero-size"),
+        (hex16([8, 0xB1, 0, 0, 0, 0, 0, 160, 0, 0, 0, 0, 0, 0, 0, 0]), "zero-height"),
+        (hex16([0xFF; 16]), "all-ff"),
+    ]
+}
+
+fn chunk(len: usize, salt: usize) -> String {
+    hex_of_bytes(&(0..len).map(|i| ((i * 7 + len + salt) & 255) as u8).collect::<Vec<u8>>())
+}
+
+/// Static part of the message alphabet for a sign with address `own`.
+fn alphabet(own: u16, foreign: u16, rich: bool) -> Vec<(String, &'static str)> {
+    let mut v: Vec<(String, &'static str)> = vec![];
+    for a in [own, foreign] {
+        v.push((format!("HE.{}", a), "hello"));
+        v.push((format!("QS.{}", a), "query"));
+        v.push((format!("GB.{}", a), "goodbye"));
+        v.push((format!("PC.{}", a), "pixels-complete"));
+        for (_, o) in OPS.iter() {
+            if a == own || rich || *o == "RCF" || *o == "RPX" || *o == "SRS" {
+                v.push((format!("RO.{}.{}", a, o), "request"));
+            }
+        }
+    }
+    v.push((format!("RS.{}.UNC", own), "sign-side-kind"));
+    v.push((format!("AO.{}.RCF", own), "sign-side-kind"));
+    v.push((format!("UN.{}.9.0102", own), "unknown-frame"));
+    let blocks = config_blocks();
+    let nb = if rich { blocks.len() } else { 6 };
+    for (b, _) in blocks.iter().take(nb) {
+        v.push((format!("SD.0.{}", b), "config-block"));
+    }
+    v.push((format!("SD.16.{}", blocks[0].0), "config-block-offset16"));
+    v.push((format!("SD.0.{}", chunk(15, 1)), "data-15@0"));
+    v.push((format!("SD.0.{}", chunk(17, 1)), "data-17@0"));
+    let lens: Vec<usize> = if rich { vec![0, 1, 15, 16, 17, 255] } else { vec![0, 16, 17] };
+    for len in lens {
+        for off in [0usize, 16, 5] {
+            if len == 0 || (off == 5 && !rich && len != 16) {
+                if !(len == 0 && off != 5) {
+                    continue;
+                }
+            }
+            v.push((format!("SD.{}.{}", off, chunk(len, off)), "data-chunk"));
+        }
+    }
+    for n in [0u32, 1, 2, 3, 65535] {
+        v.push((format!("DC.{}", n), "chunk-count"));
+    }
+    v
+}
+
+/// (data_chunks, pending length, width, height) read from the derived Debug output.
+fn private_fields(s: &VirtualSign<'_>) -> (u32, usize, u64, u64) {
+    let d = format!("{:?}", s);
+    let grab = |key: &str| -> u64 {
+        let i = d.rfind(key).map(|i| i + key.len()).unwrap_or(0);
+        d[i..].chars().take_while(|c| c.is_ascii_digit()).collect::<String>().parse().unwrap_or(0)
+    };
+    let chunks = grab("data_chunks: ") as u32;
+    let w = grab(" width: ");
+    let h = grab(" height: ");
+    let plen = match (d.rfind("pending_data: ["), d.rfind("], data_chunks")) {
+        (Some(a), Some(b)) if b >= a + 15 => {
+            let inner = &d[a + 15..b];
+            if inner.trim().is_empty() {
+                0
+            } else {
+                inner.split(',').count()
+            }
+        }
+        _ => 0,
+    };
+    (chunks, plen, w, h)
+}
+
+// ---------------------------------------------------------------------------------------------
+// the sign-side state table, transcribed from the protocol documentation (independent of the
+// implementation and of the Coq model)
+
+fn legal(op: Operation, st: State) -> bool {
+    use Operation::*;
+    use State::*;
+    match op {
+        ReceiveConfig => matches!(st, Unconfigured | ConfigFailed),
+        ReceivePixels => matches!(st, ConfigReceived | PixelsFailed | PageLoaded | PageLoadInProgress | PageShown | PageShowInProgress | ShowingPages),
+        ShowLoadedPage => st == PageLoaded,
+        LoadNextPage => st == PageShown,
+        StartReset => true,
+        FinishReset => st == ReadyToReset,
+        _ => false,
+    }
+}
+fn after_ack(op: Operation) -> State {
+    use Operation::*;
+    match op {
+        ReceiveConfig => State::ConfigInProgress,
+        ReceivePixels => State::PixelsInProgress,
+        ShowLoadedPage => State::PageShowInProgress,
+        LoadNextPage => State::PageLoadInProgress,
+        StartReset => State::ReadyToReset,
+        FinishReset => State::Unconfigured,
+        _ => State::Unconfigured,
+    }
+}
+
+fn total_bytes(w: u64, h: u64) -> u64 {
+    (4 + w * ((h + 7) / 8) + 15) / 16 * 16
+}
+
+/// Model-free monitors on one implementation step. Returns None if all hold.
+fn step_monitor(before: &VirtualSign<'static>, msg: &Message<'_>, after: &VirtualSign<'static>, reply: &Option<Message<'_>>) -> Option<String> {
+    let own = before.address();
+    let st = before.state();
+    let (chunks_b, _, _, _) = private_fields(before);
+    let expect_reply: Option<Message<'static>>;
+    let expect_state: State;
+    let mut whole_state_unchanged = false;
+    match msg {
+        Message::Hello(a) | Message::QueryState(a) if *a == own => {
+            expect_reply = Some(Message::ReportState(own, st));
+            expect_state = match st {
+                State::PageLoadInProgress => State::PageLoaded,
+                State::PageShowInProgress => State::PageShown,
+                s => s,
+            };
+        }
+        Message::RequestOperation(a, op) if *a == own => {
+            if legal(*op, st) {
+                expect_reply = Some(Message::AckOperation(own, *op));
+                expect_state = after_ack(*op);
+            } else {
+                expect_reply = None;
+                expect_state = st;
+                whole_state_unchanged = true;
+            }
+        }
+        Message::PixelsComplete(a) if *a == own => {
+            expect_reply = None;
+            expect_state = if st == State::PixelsReceived {
+                match format!("{:?}", before).contains("flip_style: Automatic") {
+                    true => State::ShowingPages,
+                    false => State::PageLoaded,
+                }
+            } else {
+                st
+            };
+        }
+        Message::Goodbye(a) if *a == own => {
+            expect_reply = None;
+            expect_state = State::Unconfigured;
+        }
+        Message::DataChunksSent(n) => {
+            expect_reply = None;
+            expect_state = match st {
+                State::ConfigInProgress => {
+                    if n.0 as u32 == chunks_b {
+                        State::ConfigReceived
+                    } else {
+                        State::ConfigFailed
+                    }
+                }
+                State::PixelsInProgress => {
+                    if n.0 as u32 == chunks_b {
+                        State::PixelsReceived
+                    } else {
+                        State::PixelsFailed
+                    }
+                }
+                s => {
+                    whole_state_unchanged = true;
+                    s
+                }
+            };
+        }
+        Message::SendData(_, _) => {
+            expect_reply = None;
+            expect_state = st;
+            if st != State::ConfigInProgress && st != State::PixelsInProgress {
+                whole_state_unchanged = true;
+            }
+        }
+        _ => {
+            // foreign address, or a kind a sign does not listen to
+            expect_reply = None;
+            expect_state = st;
+            whole_state_unchanged = true;
+        }
+    }
+    if *reply != expect_reply {
+        return Some(format!("reply {} but the state machine says {}", str_omsg(reply), str_omsg(&expect_reply)));
+    }
+    if after.state() != expect_state {
+        return Some(format!("state {} but the state machine says {}", str_state(after.state()), str_state(expect_state)));
+    }
+    if whole_state_unchanged && before != after {
+        return Some("state changed although the message must be ignored".to_string());
+    }
+    // reset returns to the blank condition
+    if after.state() == State::Unconfigured && (msg_is_reset(msg, own, st)) {
+        let blank = VirtualSign::new(own, if format!("{:?}", before).contains("flip_style: Automatic") { PageFlipStyle::Automatic } else { PageFlipStyle::Manual });
+        if *after != blank {
+            return Some("reset/goodbye did not return the sign to the blank unconfigured condition".to_string());
+        }
+    }
+    // stored pages are complete pages of the configured size; counters are clean outside transfers
+    let (chunks_a, plen_a, w, h) = private_fields(after);
+    for p in after.pages() {
+        if p.width() as u64 != w || p.height() as u64 != h || p.as_bytes().len() as u64 != total_bytes(w, h) || w == 0 || h == 0 {
+            return Some(format!("stored page {}x{} ({} bytes) is not a complete page of the configured size {}x{}", p.width(), p.height(), p.as_bytes().len(), w, h));
+        }
+    }
+    let s2 = after.state();
+    if s2 != State::ConfigInProgress && s2 != State::PixelsInProgress && s2 != State::ReadyToReset && (chunks_a != 0 || plen_a != 0) {
+        return Some(format!("outside a transfer but chunk counter {} / {} buffered bytes", chunks_a, plen_a));
+    }
+    if matches!(s2, State::Unconfigured | State::ConfigInProgress | State::ConfigReceived | State::ConfigFailed) && !after.pages().is_empty() {
+        return Some("pages stored in a configuration state".to_string());
+    }
+    if let Some(t) = after.sign_type() {
+        let (tw, th) = t.dimensions();
+        if (tw as u64, th as u64) != (w, h) {
+            return Some(format!("records type {:?} but uses size {}x{}", t, w, h));
+        }
+    }
+    None
+}
+
+fn msg_is_reset(m: &Message<'_>, own: Address, st: State) -> bool {
+    match m {
+        Message::Goodbye(a) => *a == own,
+        Message::RequestOperation(a, Operation::FinishReset) => *a == own && st == State::ReadyToReset,
+        _ => false,
+    }
+}
+
+// ---------------------------------------------------------------------------------------------
+// BFS over the implementation's state graph
+
+struct Explored {
+    /// for each state: (parent index, message that led here)
+    nodes: Vec<(usize, String)>,
+    signs: Vec<VirtualSign<'static>>,
+    fixed_point: bool,
+    transitions: u64,
+}
+
+impl Explored {
+    fn history(&self, mut i: usize) -> Vec<String> {
+        let mut h = vec![];
+        while i != 0 {
+            h.push(self.nodes[i].1.clone());
+            i = self.nodes[i].0;
+        }
+        h.reverse();
+        h
+    }
+}
+
+struct Bounds {
+    pages: usize,
+    pending_extra: u64,
+    pending_pages: u64,
+    chunks: u32,
+    max_states: usize,
+}
+
+fn explore(ctx: &mut Ctx, own: u16, style: PageFlipStyle, rich: bool, b: &Bounds, emit: bool) -> Explored {
+    let start = VirtualSign::new(Address(own), style);
+    let mut ex = Explored { nodes: vec![(0, String::new())], signs: vec![start.clone()], fixed_point: true, transitions: 0 };
+    let mut index: HashMap<VirtualSign<'static>, usize> = HashMap::new();
+    index.insert(start, 0);
+    let mut queue: VecDeque<usize> = VecDeque::new();
+    queue.push_back(0);
+    let alpha = alphabet(own, own.wrapping_add(2), rich);
+    let st = str_style(style);
+    while let Some(i) = queue.pop_front() {
+        let cur = ex.signs[i].clone();
+        let (chunks, plen, w, h) = private_fields(&cur);
+        // bounds: do not expand beyond them (the state itself was still checked when reached)
+        let pend_bound = total_bytes(w, h) * b.pending_pages + b.pending_extra;
+        if cur.pages().len() > b.pages || plen as u64 > pend_bound || chunks > b.chunks {
+            continue;
+        }
+        let hist = ex.history(i);
+        let mut msgs: Vec<(String, &'static str)> = alpha.clone();
+        for n in [chunks as i64 - 1, chunks as i64, chunks as i64 + 1] {
+            if n >= 4 && n <= 65535 {
+                msgs.push((format!("DC.{}", n), "chunk-count-true±1"));
+            }
+        }
+        for (m, class) in msgs {
+            let msg = msg_of_str(&m);
+            let mut next = cur.clone();
+            let r = guarded(|| next.process_message(&msg));
+            ex.transitions += 1;
+            let line = format!("VSL {} {} {}{}{}", own, st, hist.join(" "), if hist.is_empty() { "" } else { " " }, m);
+            if emit {
+                ctx.case(line.clone(), true, class);
+            }
+            match r {
+                None => {
+                    ctx.monitor(false, "C12-no-panic", &line, "process_message panicked");
+                    continue;
+                }
+                Some(reply) => {
+                    ctx.monitor(true, "C12-no-panic", &line, "");
+                    let v = step_monitor(&cur, &msg, &next, &reply);
+                    ctx.monitor(v.is_none(), "C13-state-machine", &line, v.as_deref().unwrap_or(""));
+                }
+            }
+            if !index.contains_key(&next) {
+                if ex.signs.len() >= b.max_states {
+                    ex.fixed_point = false;
+                    continue;
+                }
+                let j = ex.signs.len();
+                index.insert(next.clone(), j);
+                ex.signs.push(next);
+                ex.nodes.push((i, m.clone()));
+                queue.push_back(j);
+            }
+        }
+    }
+    ex
+}
+
+fn gen_vsign(ctx: &mut Ctx) {
+    let thorough = ctx.tier_thorough;
+    let mut total_states = 0usize;
+    let mut all_fixed = true;
+    for (k, style) in [PageFlipStyle::Manual, PageFlipStyle::Automatic].into_iter().enumerate() {
+        let b = if thorough {
+            Bounds { pages: 2, pending_extra: 32, pending_pages: 1, chunks: 4, max_states: 60000 }
+        } else {
+            Bounds { pages: 1, pending_extra: 17, pending_pages: 1, chunks: 2, max_states: 30000 }
+        };
+        let own = if k == 0 { 3 } else { 0xFFFE };
+        let ex = explore(ctx, own, style, thorough, &b, true);
+        total_states += ex.signs.len();
+        all_fixed &= ex.fixed_point;
+        ctx.notes.insert(
+            format!("bfs-{}", str_style(style)),
+            format!("{} distinct implementation states, {} transitions, fixed point under bounds: {}", ex.signs.len(), ex.transitions, ex.fixed_point),
+        );
+    }
+    ctx.notes.insert("bfs-total-states".into(), total_states.to_string());
+    ctx.notes.insert("bfs-fixed-point".into(), all_fixed.to_string());
+
+    // random walks (every step monitored; compared with the model step by step)
+    let mut rng = Rng::new(ctx.seed, 12);
+    let walks = if thorough { 40 } else { 8 };
+    let steps = if thorough { 3000 } else { 600 };
+    for wk in 0..walks {
+        let own = *rng.pick(&[0u16, 3, 0x7F, 0xFFFF]);
+        let style = if wk % 2 == 0 { PageFlipStyle::Manual } else { PageFlipStyle::Automatic };
+        let alpha = alphabet(own, own.wrapping_add(1), true);
+        let mut s = VirtualSign::new(Address(own), style);
+        let mut hist: Vec<String> = vec![];
+        for _ in 0..steps {
+            let (chunks, _, w, h) = private_fields(&s);
+            // bias towards making progress: legal requests and the true count half of the time
+            let m: String = match rng.below(10) {
+                0 | 1 => format!("DC.{}", chunks),
+                2 => {
+                    let legal_ops: Vec<&str> = OPS.iter().filter(|(o, _)| legal(*o, s.state())).map(|(_, n)| *n).collect();
+                    format!("RO.{}.{}", own, rng.pick(&legal_ops))
+                }
+                3 if s.state() == State::PixelsInProgress && w > 0 && h > 0 => {
+                    // a well-formed chunk continuing the current page
+                    let (_, plen, _, _) = private_fields(&s);
+                    let total = total_bytes(w, h) as usize;
+                    let off = if plen >= total { 0 } else { plen };
+                    let len = 16.min(total - off.min(total - 1));
+                    format!("SD.{}.{}", off, hex_of_bytes(&rng.bytes(len)))
+                }
+                4 => format!("SD.{}.{}", rng.below(3) * 16, hex_of_bytes(&{
+                    let n = rng.below(256) as usize;
+                    rng.bytes(n)
+                })),
+                5 if s.state() == State::ConfigInProgress => format!("SD.0.{}", hex_of_bytes(&rng.bytes(16))),
+                _ => rng.pick(&alpha).0.clone(),
+            };
+            let msg = msg_of_str(&m);
+            let before = s.clone();
+            let r = guarded(|| s.process_message(&msg));
+            hist.push(m);
+            match r {
+                None => {
+                    ctx.monitor(false, "C12-no-panic", &format!("VS {} {} {}", own, str_style(style), hist.join(" ")), "process_message panicked");
+                    break;
+                }
+                Some(reply) => {
+                    let v = step_monitor(&before, &msg, &s, &reply);
+                    if v.is_some() {
+                        ctx.monitor(false, "C13-state-machine", &format!("VS {} {} {}", own, str_style(style), hist.join(" ")), v.as_deref().unwrap());
+                        break;
+                    } else {
+                        ctx.monitor(true, "C13-state-machine", "", "");
+                    }
+                }
+            }
+        }
+        ctx.case(format!("VS {} {} {}", own, str_style(style), hist.join(" ")), true, "random-walk");
+    }
+    // the 16-bit chunk counter: a transfer longer than 65535 chunks
+    if thorough {
+        let mut msgs = vec!["RO.3.RCF".to_string(), format!("SD.0.{}", config_blocks()[2].0), "DC.1".to_string(), "RO.3.RPX".to_string()];
+        for _ in 0..65540 {
+            msgs.push("SD.16.-".to_string());
+        }
+        msgs.push("DC.4".to_string());
+        msgs.push("QS.3".to_string());
+        let line = format!("VSL 3 M {}", msgs.join(" "));
+        let res = ctx.case(line.clone(), true, "chunk-counter-wrap");
+        ctx.monitor(!res.contains("PANIC"), "C12-no-panic", "VSL 3 M <65540 chunks>", &res);
+    }
+}
+
+// ---------------------------------------------------------------------------------------------
+// C14: several signs on one bus
+
+fn gen_c14(ctx: &mut Ctx) {
+    let mut rng = Rng::new(ctx.seed, 14);
+    let thorough = ctx.tier_thorough;
+    let walks = if thorough { 400 } else { 60 };
+    let steps = if thorough { 400 } else { 150 };
+    let all_addrs = [3u16, 5, 0x7F, 0xFFFF];
+    for wk in 0..walks {
+        let k = 1 + (wk % 4);
+        let addrs: Vec<u16> = all_addrs[..k].to_vec();
+        let styles: Vec<PageFlipStyle> = (0..k).map(|i| if (wk / 4 + i) % 2 == 0 { PageFlipStyle::Manual } else { PageFlipStyle::Automatic }).collect();
+        let signs: Vec<VirtualSign<'static>> = (0..k).map(|i| VirtualSign::new(Address(addrs[i]), styles[i])).collect();
+        let mut bus = VirtualSignBus::new(signs);
+        let absent = [9u16, 0];
+        let mut hist: Vec<String> = vec![];
+        let head: String = (0..k).map(|i| format!("{} {}", addrs[i], str_style(styles[i]))).collect::<Vec<_>>().join(" ");
+        let blocks = config_blocks();
+        let mut failed = false;
+        for _ in 0..steps {
+            let target = if rng.chance(1, 8) { *rng.pick(&absent) } else { *rng.pick(&addrs) };
+            let ti = addrs.iter().position(|a| *a == target);
+            let m: String = match rng.below(12) {
+                0 => format!("HE.{}", target),
+                1 => format!("QS.{}", target),
+                2 | 3 => {
+                    // a legal request for the target if there is one, to keep signs moving
+                    match ti {
+                        Some(i) => {
+                            let st = bus.sign(i).state();
+                            let legal_ops: Vec<&str> = OPS.iter().filter(|(o, _)| legal(*o, st) && (*o != Operation::StartReset || rng.0 % 5 == 0)).map(|(_, n)| *n).collect();
+                            if legal_ops.is_empty() {
+                                format!("RO.{}.SRS", target)
+                            } else {
+                                format!("RO.{}.{}", target, rng.pick(&legal_ops))
+                            }
+                        }
+                        None => format!("RO.{}.RCF", target),
+                    }
+                }
+                4 => format!("RO.{}.{}", target, rng.pick(&OPS).1),
+                5 => format!("PC.{}", target),
+                6 => {
+                    if rng.chance(1, 6) {
+                        format!("GB.{}", target)
+                    } else {
+                        format!("PC.{}", target)
+                    }
+                }
+                7 => format!("SD.0.{}", rng.pick(&blocks[..4]).0),
+                8 | 9 => format!("SD.{}.{}", rng.below(2) * 16, chunk(16, rng.below(4) as usize)),
+                10 => {
+                    // the true count of some sign
+                    let i = rng.below(k as u64) as usize;
+                    format!("DC.{}", private_fields(bus.sign(i)).0)
+                }
+                _ => format!("DC.{}", rng.below(4)),
+            };
+            let msg = msg_of_str(&m);
+            let before: Vec<VirtualSign<'static>> = (0..k).map(|i| bus.sign(i).clone()).collect();
+            let r = guarded(|| bus.process_message(msg_of_str(&m)));
+            hist.push(m.clone());
+            let line = format!("BUS {} {} {}", k, head, hist.join(" "));
+            let reply = match r {
+                None | Some(Err(_)) => {
+                    ctx.monitor(false, "C14-no-panic", &line, "bus panicked or failed");
+                    failed = true;
+                    break;
+                }
+                Some(Ok(reply)) => reply,
+            };
+            // isolation monitor
+            let mut verdict: Option<String> = None;
+            let addressed = match &msg {
+                Message::Hello(a) | Message::QueryState(a) | Message::PixelsComplete(a) | Message::Goodbye(a) => Some(a.0),
+                Message::RequestOperation(a, _) => Some(a.0),
+                _ => None,
+            };
+            match addressed {
+                Some(a) => {
+                    for i in 0..k {
+                        if addrs[i] != a && *bus.sign(i) != before[i] {
+                            verdict = Some(format!("message for {} changed sign {}", a, addrs[i]));
+                        }
+                    }
+                    match addrs.iter().position(|x| *x == a) {
+                        None => {
+                            if reply.is_some() {
+                                verdict = Some(format!("reply {} to an address nobody has", str_omsg(&reply)));
+                            }
+                        }
+                        Some(i) => {
+                            let mut alone = before[i].clone();
+                            let alone_reply = alone.process_message(&msg);
+                            if alone_reply != reply {
+                                verdict = Some(format!("bus replied {} but the sign alone replies {}", str_omsg(&reply), str_omsg(&alone_reply)));
+                            }
+                            if alone != *bus.sign(i) {
+                                verdict = Some("addressed sign's new state differs from what it does alone".to_string());
+                            }
+                            if let Some(rm) = &reply {
+                                let ra = match rm {
+                                    Message::ReportState(x, _) | Message::AckOperation(x, _) => Some(x.0),
+                                    _ => None,
+                                };
+                                if ra != Some(a) {
+                                    verdict = Some(format!("reply {} does not carry the addressed sign's address", str_msg(rm)));
+                                }
+                            }
+                        }
+                    }
+                }
+                None => {
+                    if reply.is_some() {
+                        verdict = Some("reply to an unaddressed message".to_string());
+                    }
+                    let is_data = matches!(msg, Message::SendData(_, _) | Message::DataChunksSent(_));
+                    for i in 0..k {
+                        let st = before[i].state();
+                        let receiving = st == State::ConfigInProgress || st == State::PixelsInProgress;
+                        let obs_changed = bus.sign(i).state() != before[i].state() || bus.sign(i).sign_type() != before[i].sign_type() || bus.sign(i).pages() != before[i].pages();
+                        if (!receiving || !is_data) && obs_changed {
+                            verdict = Some(format!("unaddressed message changed sign {} which is in state {}", addrs[i], str_state(st)));
+                        }
+                    }
+                }
+            }
+            ctx.monitor(verdict.is_none(), "C14-isolation", &line, verdict.as_deref().unwrap_or(""));
+            if verdict.is_some() {
+                failed = true;
+                break;
+            }
+        }
+        let _ = failed;
+        ctx.case(format!("BUS {} {} {}", k, head, hist.join(" ")), true, &format!("walk-{}-signs", k));
+    }
+}
+
+// ---------------------------------------------------------------------------------------------
+// C10 / C11: exhaustive reply-alphabet DFS on the implementation
+
+fn reply_alphabet(own: u16, foreign: u16) -> Vec<String> {
+    let mut v = vec!["N".to_string(), "E".to_string()];
+    for a in [own, foreign] {
+        for (_, st) in STATES.iter() {
+            v.push(format!("RS.{}.{}", a, st));
+        }
+        for (_, op) in OPS.iter() {
+            v.push(format!("AO.{}.{}", a, op));
+        }
+    }
+    v.push(format!("GB.{}", own));
+    v.push(format!("UN.{}.9.01", own));
+    v.push("SD.0.00".to_string());
+    v.push(format!("HE.{}", own));
+    v
+}
+
+/// The four C11 invariants, checked on the implementation's own conversation.
+fn c11_monitor(op: &str, own: u16, trace: &[Message<'static>], script: &[Reply], outcome: &str) -> Option<String> {
+    // own address only
+    for m in trace {
+        let a = match m {
+            Message::Hello(a) | Message::QueryState(a) | Message::PixelsComplete(a) | Message::Goodbye(a) => Some(a.0),
+            Message::RequestOperation(a, _) => Some(a.0),
+            Message::ReportState(..) | Message::AckOperation(..) | Message::Unknown(..) => return Some(format!("controller emitted a sign-side message {}", str_msg(m))),
+            _ => None,
+        };
+        if let Some(a) = a {
+            if a != own {
+                return Some(format!("addressed message {} does not carry the controller's address {}", str_msg(m), own));
+            }
+        }
+    }
+    let consumed = trace.len().min(script.len());
+    // fail-stop: a bus error in the consumed prefix means the call ended there with the bus error
+    for (i, r) in script[..consumed].iter().enumerate() {
+        if matches!(r, Reply::BusErr) {
+            if i + 1 != trace.len() {
+                return Some(format!("{} messages were sent after the bus error at reply {}", trace.len() - i - 1, i));
+            }
+            if outcome != "BUS" {
+                return Some(format!("bus error at reply {} but outcome {}", i, outcome));
+            }
+        }
+    }
+    if outcome == "BUS" && !matches!(script.get(trace.len().wrapping_sub(1)), Some(Reply::BusErr)) {
+        return Some("outcome is a bus error but the last consumed reply is not one".to_string());
+    }
+    let kind = &op[..3];
+    if kind == "CFG" || kind == "CIN" || kind == "SND" {
+        let (recv_op, success, failure) = if kind == "SND" {
+            (Operation::ReceivePixels, State::PixelsReceived, State::PixelsFailed)
+        } else {
+            (Operation::ReceiveConfig, State::ConfigReceived, State::ConfigFailed)
+        };
+        let reqs: Vec<usize> = trace.iter().enumerate().filter(|(_, m)| **m == Message::RequestOperation(Address(own), recv_op)).map(|(i, _)| i).collect();
+        if reqs.len() > 3 {
+            return Some(format!("{} transfer attempts", reqs.len()));
+        }
+        for &i in reqs.iter().skip(1) {
+            let prev_is_query = i >= 1 && trace[i - 1] == Message::QueryState(Address(own));
+            let prev_reply_failed = match script.get(i - 1) {
+                Some(Reply::Rep(Some(m))) => *m == Message::ReportState(Address(own), failure),
+                _ => false,
+            };
+            if !prev_is_query || !prev_reply_failed {
+                return Some(format!("retry at message {} not preceded by the sign's own failure report", i));
+            }
+        }
+        if outcome.starts_with("DONE") && !reqs.is_empty() {
+            // the query concluding the final attempt was answered by own 'received'
+            let last_req = *reqs.last().unwrap();
+            let q = trace.iter().enumerate().skip(last_req).find(|(_, m)| **m == Message::QueryState(Address(own))).map(|(i, _)| i);
+            let ok = match q.and_then(|i| script.get(i)) {
+                Some(Reply::Rep(Some(m))) => *m == Message::ReportState(Address(own), success),
+                _ => false,
+            };
+            if !ok {
+                return Some("success reported without the sign's own 'received' report concluding the final attempt".to_string());
+            }
+        }
+    }
+    None
+}
+
+fn run_ct(op: &str, script: &[String]) -> (Vec<Message<'static>>, String, bool) {
+    let sc: Vec<Reply> = script.iter().map(|s| reply_of_str(s)).collect();
+    let bus = Rc::new(RefCell::new(ScriptBus::new(sc)));
+    let r = run_cop(op, bus.clone());
+    let b = bus.borrow();
+    (b.trace.clone(), str_outcome(&r, b.blocked), b.calls_after_error > 0)
+}
+
+fn dfs(ctx: &mut Ctx, op: &str, own: u16, alpha: &[String], script: &mut Vec<String>, poll_budget: usize, count: &mut u64, max: u64) {
+    if *count >= max {
+        return;
+    }
+    let (trace, outcome, after_err) = run_ct(op, script);
+    *count += 1;
+    let line = format!("CT {} {}", op, script.join(" "));
+    let line = line.trim_end().to_string();
+    ctx.case(line.clone(), !script.is_empty(), &format!("{}-{}", &op[..3], outcome.split('.').next().unwrap()));
+    let sc: Vec<Reply> = script.iter().map(|s| reply_of_str(s)).collect();
+    let v = c11_monitor(op, own, &trace, &sc, &outcome);
+    ctx.monitor(v.is_none(), "C11-invariants", &line, v.as_deref().unwrap_or(""));
+    ctx.monitor(!after_err, "C11-fail-stop", &line, "bus called again after an error");
+    if outcome != "BLOCKED" {
+        return;
+    }
+    for letter in alpha {
+        // polling loops are unbounded: cut the number of in-progress / trigger replies
+        let is_poll = op.starts_with("SHW") || op.starts_with("LNX");
+        let mut budget = poll_budget;
+        if is_poll && (letter.ends_with(".PLP") || letter.ends_with(".PSP") || letter.ends_with(".PLD") || letter.ends_with(".PSH")) && letter.starts_with(&format!("RS.{}.", own)) {
+            if budget == 0 {
+                continue;
+            }
+            budget -= 1;
+        }
+        script.push(letter.clone());
+        dfs(ctx, op, own, alpha, script, budget, count, max);
+        script.pop();
+    }
+}
+
+fn small_page(id: u8, w: u32, h: u32, rng: &mut Rng) -> String {
+    let total = total_bytes(w as u64, h as u64) as usize;
+    let mut b = rng.bytes(total);
+    b[0] = id;
+    format!("{}.{}.{}", w, h, hex_of_bytes(&b))
+}
+
+fn gen_c10(ctx: &mut Ctx) {
+    let mut rng = Rng::new(ctx.seed, 10);
+    let thorough = ctx.tier_thorough;
+    let addrs: Vec<u16> = if thorough { vec![0, 3, 0x7F, 0x80, 0xFF, 0x100, 0xFFFF] } else { vec![3, 0xFFFF] };
+    let types: Vec<usize> = if thorough { (0..11).collect() } else { vec![2, 7] };
+    let max = if thorough { 400000 } else { 60000 };
+    let poll = if thorough { 5 } else { 3 };
+    for (ai, &own) in addrs.iter().enumerate() {
+        let foreign = if own == 0xFFFF { 0 } else { own + 1 };
+        let alpha = reply_alphabet(own, foreign);
+        let mut ops: Vec<String> = vec![];
+        for (ti, &t) in types.iter().enumerate() {
+            if ti == ai % types.len() || thorough && ti % 3 == ai % 3 {
+                ops.push(format!("CFG.{}.{}", own, t));
+                ops.push(format!("CIN.{}.{}", own, t));
+            }
+        }
+        ops.push(format!("SND.{}.-", own));
+        ops.push(format!("SND.{}.{}", own, small_page(1, 8, 8, &mut rng)));
+        if thorough || ai == 0 {
+            ops.push(format!("SND.{}.{}+{}", own, small_page(1, 8, 8, &mut rng), small_page(2, 20, 8, &mut rng)));
+        }
+        ops.push(format!("SHW.{}.64", own));
+        ops.push(format!("LNX.{}.64", own));
+        ops.push(format!("BYE.{}", own));
+        for op in ops {
+            let mut count = 0u64;
+            let mut script = vec![];
+            dfs(ctx, &op, own, &alpha, &mut script, poll, &mut count, max);
+            let e = ctx.notes.entry(format!("dfs-{}", &op[..3])).or_insert_with(String::new);
+            e.push_str(&format!("{} ", count));
+        }
+    }
+    // random long scripts (mostly cooperative with occasional deviations)
+    let n = if thorough { 20000 } else { 1500 };
+    for _ in 0..n {
+        let own = *rng.pick(&[0u16, 3, 0x7F, 0x80, 0xFF, 0x100, 0xFFFF]);
+        let alpha = reply_alphabet(own, own ^ 1);
+        let op = match rng.below(6) {
+            0 => format!("CFG.{}.{}", own, rng.below(11)),
+            1 => format!("CIN.{}.{}", own, rng.below(11)),
+            2 => format!("SND.{}.{}", own, small_page(rng.byte(), 8, 8, &mut rng)),
+            3 => format!("SHW.{}.200", own),
+            4 => format!("LNX.{}.200", own),
+            _ => format!("SND.{}.{}+{}", own, small_page(1, 8, 8, &mut rng), small_page(2, 8, 8, &mut rng)),
+        };
+        // follow the cooperative path, deviating with small probability
+        let mut script: Vec<String> = vec![];
+        loop {
+            let (trace, outcome, _) = run_ct(&op, &script);
+            if outcome != "BLOCKED" || script.len() > 150 {
+                break;
+            }
+            let pending = trace.last().unwrap();
+            let coop: String = match pending {
+                Message::Hello(_) | Message::QueryState(_) => {
+                    // plausible state for this point
+                    let sts = ["UNC", "RTR", "CRX", "CFL", "PRX", "PFL", "PLD", "PSH", "PLP", "PSP", "SHP"];
+                    format!("RS.{}.{}", own, rng.pick(&sts))
+                }
+                Message::RequestOperation(_, o) => format!("AO.{}.{}", own, str_op(*o)),
+                _ => "N".to_string(),
+            };
+            let letter = if rng.chance(1, 12) { rng.pick(&alpha).clone() } else { coop };
+            script.push(letter);
+        }
+        let (trace, outcome, after_err) = run_ct(&op, &script);
+        let line = format!("CT {} {}", op, script.join(" "));
+        ctx.case(line.clone(), true, "random-script");
+        let sc: Vec<Reply> = script.iter().map(|s| reply_of_str(s)).collect();
+        let v = c11_monitor(&op, own, &trace, &sc, &outcome);
+        ctx.monitor(v.is_none(), "C11-invariants", &line, v.as_deref().unwrap_or(""));
+        ctx.monitor(!after_err, "C11-fail-stop", &line, "");
+    }
+}
+
+// ---------------------------------------------------------------------------------------------
+// C09: shape of every transfer attempt
+
+/// Independent check of one conversation against the property text.
+fn c09_monitor(own: u16, recv_op: Operation, items: &[Vec<u8>], trace: &[Message<'static>], script: &[Reply]) -> Option<String> {
+    let a = Address(own);
+    let mut i = 0;
+    let mut attempts = 0;
+    while i < trace.len() {
+        if trace[i] != Message::RequestOperation(a, recv_op) {
+            i += 1;
+            continue;
+        }
+        attempts += 1;
+        // acknowledgement obtained?
+        let acked = matches!(script.get(i), Some(Reply::Rep(Some(m))) if *m == Message::AckOperation(a, recv_op));
+        i += 1;
+        if !acked {
+            if i < trace.len() {
+                if let Message::SendData(..) = trace[i] {
+                    return Some("data sent without the sign's acknowledgement of the receive request".to_string());
+                }
+            }
+            continue;
+        }
+        // the chunks of each item, in order
+        let mut sent = 0u32;
+        let mut complete = true;
+        'items: for item in items {
+            let mut off = 0usize;
+            while off < item.len() {
+                let end = (off + 16).min(item.len());
+                match trace.get(i) {
+                    None => {
+                        complete = false;
+                        break 'items;
+                    }
+                    Some(Message::SendData(o, d)) => {
+                        if o.0 as usize != off % 65536 || d.get().as_ref() != &item[off..end] {
+                            return Some(format!("chunk at message {}: offset {} / {} bytes, expected offset {} and bytes {}..{} of the item", i, o.0, d.get().len(), off, off, end));
+                        }
+                    }
+                    Some(m) => return Some(format!("expected a data chunk at message {}, got {}", i, str_msg(m))),
+                }
+                sent += 1;
+                // reply must have been None for the transfer to continue
+                if !matches!(script.get(i), Some(Reply::Rep(None))) {
+                    i += 1;
+                    complete = false;
+                    break 'items;
+                }
+                i += 1;
+                off = end;
+            }
+        }
+        if !complete {
+            continue;
+        }
+        match trace.get(i) {
+            None => continue,
+            Some(Message::DataChunksSent(n)) => {
+                if n.0 as u32 != sent {
+                    return Some(format!("announced {} chunks but sent {}", n.0, sent));
+                }
+            }
+            Some(m) => return Some(format!("expected the chunk count after all chunks, got {}", str_msg(m))),
+        }
+        if !matches!(script.get(i), Some(Reply::Rep(None))) {
+            i += 1;
+            continue;
+        }
+        i += 1;
+        match trace.get(i) {
+            None => continue,
+            Some(m) if *m == Message::QueryState(a) => {}
+            Some(m) => return Some(format!("expected the result query after the count, got {}", str_msg(m))),
+        }
+        i += 1;
+    }
+    // no data chunk or count outside an attempt
+    let mut in_attempt = false;
+    for m in trace {
+        match m {
+            Message::RequestOperation(x, o) if *x == a && *o == recv_op => in_attempt = true,
+            Message::SendData(..) | Message::DataChunksSent(..) if !in_attempt => return Some("data message before any receive request".to_string()),
+            _ => {}
+        }
+    }
+    if attempts > 3 {
+        return Some(format!("{} attempts", attempts));
+    }
+    None
+}
+
+fn gen_c09(ctx: &mut Ctx) {
+    let mut rng = Rng::new(ctx.seed, 9);
+    let thorough = ctx.tier_thorough;
+    let n = if thorough { 1500 } else { 160 };
+    for k in 0..n {
+        let own = *rng.pick(&[0u16, 3, 0x7F, 0xFFFF, 0x1234]);
+        let is_cfg = k % 4 == 0;
+        let t = (k / 4) % 11;
+        // page lists: sign sizes, foreign sizes, from one chunk up to large items
+        let npages = rng.below(if thorough { 5 } else { 4 }) as usize;
+        let mut pages: Vec<String> = vec![];
+        let mut items: Vec<Vec<u8>> = vec![];
+        for pi in 0..npages {
+            let (w, h) = match rng.below(6) {
+                0 => (8, 8),
+                1 => SIGN_SIZES[rng.below(11) as usize],
+                2 => (20, 8),
+                3 => (1 + rng.below(40) as u32, 1 + rng.below(20) as u32),
+                4 if thorough && k % 97 == 0 => (4000, 16),
+                _ => (90, 7),
+            };
+            let p = small_page(pi as u8, w, h, &mut rng);
+            items.push(bytes_of_hex(p.split('.').nth(2).unwrap()));
+            pages.push(p);
+        }
+        if thorough && k == 1 {
+            // a single item at the 16-bit offset limit: 65536 bytes = 4096 chunks
+            let p = small_page(9, 65532 / 2, 16, &mut rng);
+            items = vec![bytes_of_hex(p.split('.').nth(2).unwrap())];
+            pages = vec![p];
+        }
+        let op = if is_cfg {
+            items = vec![SIGN_TYPES[t].to_bytes().to_vec()];
+            format!("CFG.{}.{}", own, t)
+        } else {
+            format!("SND.{}.{}", own, if pages.is_empty() { "-".to_string() } else { pages.join("+") })
+        };
+        // retry pattern: how many failure reports before success (0..3), plus an occasional deviation
+        let fails = rng.below(4);
+        let mut script: Vec<String> = vec![];
+        let mut failures_given = 0;
+        loop {
+            let (trace, outcome, _) = run_ct(&op, &script);
+            if outcome != "BLOCKED" || script.len() > 30000 {
+                break;
+            }
+            let pending = trace.last().unwrap();
+            let letter = match pending {
+                Message::Hello(_) => {
+                    // reset conversation of configure
+                    let prev_finish = trace.len() >= 2 && matches!(trace[trace.len() - 2], Message::RequestOperation(_, Operation::FinishReset));
+                    let prev_start = trace.len() >= 2 && matches!(trace[trace.len() - 2], Message::RequestOperation(_, Operation::StartReset));
+                    if prev_finish {
+                        format!("RS.{}.UNC", own)
+                    } else if prev_start {
+                        format!("RS.{}.RTR", own)
+                    } else {
+                        format!("RS.{}.{}", own, rng.pick(&["UNC", "RTR", "PLD", "CRX"]))
+                    }
+                }
+                Message::QueryState(_) => {
+                    let after_count = trace.len() >= 2 && matches!(trace[trace.len() - 2], Message::DataChunksSent(_));
+                    if after_count {
+                        if failures_given < fails {
+                            failures_given += 1;
+                            format!("RS.{}.{}", own, if is_cfg { "CFL" } else { "PFL" })
+                        } else {
+                            format!("RS.{}.{}", own, if is_cfg { "CRX" } else { "PRX" })
+                        }
+                    } else {
+                        format!("RS.{}.{}", own, rng.pick(&["PLD", "SHP"]))
+                    }
+                }
+                Message::RequestOperation(_, o) => format!("AO.{}.{}", own, str_op(*o)),
+                _ => "N".to_string(),
+            };
+            script.push(letter);
+        }
+        let (trace, _outcome, _) = run_ct(&op, &script);
+        let line = format!("CT {} {}", op, script.join(" "));
+        ctx.case(line.clone(), true, &format!("{}-fails{}", if is_cfg { "configure" } else { "send_pages" }, fails));
+        let sc: Vec<Reply> = script.iter().map(|s| reply_of_str(s)).collect();
+        let recv = if is_cfg { Operation::ReceiveConfig } else { Operation::ReceivePixels };
+        let v = c09_monitor(own, recv, &items, &trace, &sc);
+        let short_line = if line.len() > 2000 { format!("{}...", &line[..2000]) } else { line.clone() };
+        ctx.monitor(v.is_none(), "C09-transfer-shape", &short_line, v.as_deref().unwrap_or(""));
+        if is_cfg {
+            // the configuration sent is exactly the block of the controller's sign type
+            let blocks: Vec<&Message<'static>> = trace.iter().filter(|m| matches!(m, Message::SendData(..))).collect();
+            let ok = blocks.iter().all(|m| match m {
+                Message::SendData(o, d) => o.0 == 0 && d.get().as_ref() == SIGN_TYPES[t].to_bytes(),
+                _ => false,
+            });
+            ctx.monitor(ok, "C09-config-block", &short_line, "");
+        }
+        // truncated / deviating variants of the same conversation
+        if script.len() > 2 {
+            for _ in 0..2 {
+                let cut = 1 + rng.below(script.len() as u64 - 1) as usize;
+                let mut s2 = script[..cut].to_vec();
+                s2.push(rng.pick(&["N", "E", &format!("RS.{}.PFL", own), &format!("AO.{}.RPX", own ^ 1)]).to_string());
+                let (trace2, _, _) = run_ct(&op, &s2);
+                let line2 = format!("CT {} {}", op, s2.join(" "));
+                ctx.case(line2.clone(), true, "deviation");
+                let sc2: Vec<Reply> = s2.iter().map(|s| reply_of_str(s)).collect();
+                let v2 = c09_monitor(own, recv, &items, &trace2, &sc2);
+                let short2 = if line2.len() > 2000 { format!("{}...", &line2[..2000]) } else { line2.clone() };
+                ctx.monitor(v2.is_none(), "C09-transfer-shape", &short2, v2.as_deref().unwrap_or(""));
+            }
+        }
+    }
+}
+
+// ---------------------------------------------------------------------------------------------
+// C08: closed loop controller x virtual sign from every explored prior state
+
+fn gen_c08(ctx: &mut Ctx) {
+    let mut rng = Rng::new(ctx.seed, 8);
+    let thorough = ctx.tier_thorough;
+    let addrs: Vec<u16> = if thorough { vec![0, 3, 0x7F, 0x100, 0xFFFF] } else { vec![3, 0xFFFF] };
+    let b = Bounds { pages: 1, pending_extra: 17, pending_pages: 1, chunks: 2, max_states: if thorough { 4000 } else { 700 } };
+    let mut prior_count = 0usize;
+    for (ai, &own) in addrs.iter().enumerate() {
+        for style in [PageFlipStyle::Manual, PageFlipStyle::Automatic] {
+            let ex = explore(ctx, own, style, false, &b, false);
+            let nstates = ex.signs.len();
+            let stride = if thorough { 1 } else { 1 + nstates / 120 };
+            let mut i = (ai + if style == PageFlipStyle::Manual { 0 } else { 1 }) % stride;
+            while i < nstates {
+                prior_count += 1;
+                let prior = ex.history(i);
+                let sign = &ex.signs[i];
+                let t = rng.below(11) as usize;
+                let (w, h) = SIGN_SIZES[t];
+                let npages = rng.below(if thorough { 4 } else { 3 }) as usize;
+                let pages: Vec<String> = (0..npages).map(|k| small_page(rng.byte().wrapping_add(k as u8), w, h, &mut rng)).collect();
+                let pstr = if pages.is_empty() { "-".to_string() } else { pages.join("+") };
+                let use_cin = rng.chance(1, 2);
+                let mut ops: Vec<String> = vec![];
+                ops.push(format!("{}.{}.{}", if use_cin { "CIN" } else { "CFG" }, own, t));
+                ops.push(format!("SND.{}.{}", own, pstr));
+                ops.push(format!("SHW.{}.100", own));
+                ops.push(format!("LNX.{}.100", own));
+                ops.push(format!("SHW.{}.100", own));
+                if rng.chance(1, 3) {
+                    // repeated send
+                    let pages2: Vec<String> = (0..1 + rng.below(2) as usize).map(|k| small_page(100 + k as u8, w, h, &mut rng)).collect();
+                    ops.push(format!("SND.{}.{}", own, pages2.join("+")));
+                }
+                let line = format!("CL 1 {} {} {} | {}", own, str_style(style), prior.join(" "), ops.join(" "));
+                let res = ctx.case(line.clone(), true, &format!("prior-{}", str_state(sign.state())));
+                // property-level monitor
+                let toks: Vec<&str> = res.split(" # ").next().unwrap_or("").split(' ').filter(|s| !s.is_empty()).collect();
+                let ready = matches!(sign.state(), State::ConfigReceived | State::ShowingPages | State::PageLoaded | State::PageShowInProgress | State::PageShown | State::PageLoadInProgress);
+                let in_quantifier = !use_cin || !ready || sign.sign_type() == Some(SIGN_TYPES[t]);
+                let mut verdict: Option<String> = None;
+                if in_quantifier && toks.len() >= 5 {
+                    let manual = style == PageFlipStyle::Manual;
+                    let cfg_tok = toks[0];
+                    let reconfigured = !(use_cin && ready);
+                    if !cfg_tok.starts_with("DONE/") {
+                        verdict = Some(format!("configure gave {}", cfg_tok));
+                    } else if reconfigured && !cfg_tok.starts_with(&format!("DONE/CRX.{}.0.", t)) {
+                        verdict = Some(format!("after configure the sign is {}", cfg_tok));
+                    }
+                    let hp = hash_pages(&pages.iter().map(|p| page_of_str(p)).collect::<Vec<_>>());
+                    let want_snd = format!("DONE.{}/{}.{}.{}.{}", if manual { "M" } else { "A" }, if manual { "PLD" } else { "SHP" }, t, npages, hp);
+                    if verdict.is_none() && toks[1] != want_snd {
+                        verdict = Some(format!("send_pages gave {} wanted {}", toks[1], want_snd));
+                    }
+                    let want_show = format!("DONE/{}.{}.{}.{}", if manual { "PSH" } else { "SHP" }, t, npages, hp);
+                    let want_load = format!("DONE/{}.{}.{}.{}", if manual { "PLD" } else { "SHP" }, t, npages, hp);
+                    if verdict.is_none() && (toks[2] != want_show || toks[3] != want_load || toks[4] != want_show) {
+                        verdict = Some(format!("show/load-next gave {} {} {}", toks[2], toks[3], toks[4]));
+                    }
+                } else if in_quantifier {
+                    verdict = Some(format!("unexpected result {}", res));
+                }
+                ctx.monitor(verdict.is_none(), "C08-closed-loop", &line, verdict.as_deref().unwrap_or(""));
+                i += stride;
+            }
+        }
+    }
+    ctx.notes.insert("prior-states".into(), prior_count.to_string());
+    // multi-sign buses: the configured sign is not the first one, others are mid-transfer
+    for k in 0..(if thorough { 200 } else { 30 }) {
+        let own = 7u16;
+        let t = k % 11;
+        let (w, h) = SIGN_SIZES[t];
+        let pages: Vec<String> = (0..1 + k % 3).map(|j| small_page(j as u8, w, h, &mut rng)).collect();
+        let prior = [
+            "RO.5.RCF".to_string(),
+            format!("SD.0.{}", config_blocks()[2].0),
+            "DC.1".to_string(),
+            "RO.5.RPX".to_string(),
+            format!("SD.0.{}", chunk(16, 1)),
+            format!("RO.7.{}", rng.pick(&["RCF", "SRS"])),
+        ];
+        let line = format!("CL 3 5 M 7 {} 9 A {} | CFG.7.{} SND.7.{} SHW.7.50", if k % 2 == 0 { "M" } else { "A" }, prior.join(" "), t, pages.join("+"));
+        ctx.case(line, true, "multi-sign");
+    }
 }
